@@ -124,6 +124,9 @@ structure St where
   vst : VSt := .none        -- state of authentication (see `VSt`)
   codeV : Bool := false     -- `code` currently holds the result of the pending verification call
   early : List Bool := []   -- output d was written while authentication had not passed
+  errSeen : Bool := false   -- `code` has held an error on this path (assigned a non-zero constant / tested != ERR_OK)
+  reset : Bool := false     -- C09: … and was assigned ERR_OK / a fresh value afterwards (recorded error overwritten)
+  late : Bool := false      -- C09: … and an output was written afterwards (other than memSetZero / memWipe)
   lost : Bool := false      -- C15: a live blob was overwritten / freed directly / closed twice
   crash : Bool := false     -- C09: a null or closed blob was used
 deriving DecidableEq, Repr
@@ -170,15 +173,17 @@ def apply (s : St) : Ev → St
   | .setunk v => { s.setv v .unk with lost := s.lost || s.isLive v }
   | .use v => { s with crash := s.crash || s.st v == .null || s.st v == .closed }
   | .call _ => s
-  | .wr d => { s with dirty := setAt false s.dirty d true,
+  | .wr d => { s with late := s.late || s.errSeen, dirty := setAt false s.dirty d true,
                       early := if s.vst = .passed then s.early else setAt false s.early d true }
   | .zero d => { s with dirty := setAt false s.dirty d false }
-  | .code c => { s with code := c, codeV := false,
+  | .code c => { s with code := c, codeV := false, errSeen := s.errSeen || c == .bad,
+                        reset := s.reset || (s.errSeen && c != .bad),
                         vst := if s.codeV && s.vst == .pending then .failed else s.vst }
   | .test c =>
-    { s with code := c,
+    { s with code := c, errSeen := s.errSeen || c == .bad,
              vst := if s.codeV && s.vst == .pending then (if c = .ok then .passed else .failed) else s.vst }
-  | .vcall toCode => { s with vst := .pending, codeV := toCode, code := if toCode then .unk else s.code }
+  | .vcall toCode => { s with vst := .pending, codeV := toCode, code := if toCode then .unk else s.code,
+                              reset := s.reset || (s.errSeen && toCode) }
   | .vres okv =>
     { s with vst := if !s.codeV && s.vst == .pending then (if okv then .passed else .failed) else s.vst }
 end St
@@ -311,5 +316,11 @@ written only while the result of the most recent verification call has been TEST
 def verifyFirst (d : Nat) (c : Cfg) : Bool :=
   let r := reach c [St.init]
   r.ok && r.rets.all fun p => decide (p.1.vst = .none) || !p.1.isEarly d
+
+/-- C09 checker (error code monotonicity): once `code` has held an error on a path it is never assigned
+ERR_OK or a fresh value again, and no output is written after that point except by memSetZero / memWipe. -/
+def errorSticky (c : Cfg) : Bool :=
+  let r := reach c [St.init]
+  r.ok && r.rets.all fun p => !p.1.reset && !p.1.late
 
 end Bee2V.C15
